@@ -82,33 +82,23 @@ impl Divert {
     pub fn get_target_pointer(self: &Rc<Self>) -> Pointer {
         let target_pointer_null = self.target_pointer.borrow().is_null();
         if target_pointer_null {
-            let target_obj =
-                Object::resolve_path(self.clone(), self.target_path.borrow().as_ref().unwrap())
+            // No target path, or an empty one: there is nothing to point at, the
+            // pointer stays null and the divert is reported as unresolvable.
+            let target_path = self.target_path.borrow().clone();
+            if let Some(target_path) = target_path
+                && let Some(last_component) = target_path.get_last_component()
+            {
+                let target_obj = Object::resolve_path(self.clone(), &target_path)
                     .obj
                     .clone();
 
-            if self
-                .target_path
-                .borrow()
-                .as_ref()
-                .unwrap()
-                .get_last_component()
-                .unwrap()
-                .is_index()
-            {
-                self.target_pointer.borrow_mut().container = target_obj.get_object().get_parent();
-                self.target_pointer.borrow_mut().index = self
-                    .target_path
-                    .borrow()
-                    .as_ref()
-                    .unwrap()
-                    .get_last_component()
-                    .unwrap()
-                    .index
-                    .unwrap() as i32;
-            } else {
-                let c = target_obj.into_any().downcast::<Container>();
-                self.target_pointer.replace(Pointer::start_of(c.unwrap()));
+                if let Some(index) = last_component.index {
+                    self.target_pointer.borrow_mut().container =
+                        target_obj.get_object().get_parent();
+                    self.target_pointer.borrow_mut().index = index as i32;
+                } else if let Ok(c) = target_obj.into_any().downcast::<Container>() {
+                    self.target_pointer.replace(Pointer::start_of(c));
+                }
             }
         }
 
